@@ -37,15 +37,17 @@ def dummy_tables():
         funcs = re.findall(r'^define [^\n]*?@"?([^"\s(]+)"?\(([^\n]*)\{\n(.*?)^\}', ir, re.M | re.S)
         per = {}     # ordinal -> {role: hash}
         for n, a, b in funcs:
-            m = re.search(r'ops_dummy_\w+?ERNS_7runtime7runtimeEEN?K?\d+\$_(\d+)(\w+)$', n)
+            m = re.search(r'ops_dummy_\w+?ERNS_7runtime7runtimeEEN?K?(\d+)\$_(\w+)$', n)
             if not m: continue
-            role = 'call' if m.group(2).startswith('cl') else 'invoke' if m.group(2).startswith('__invoke') else 'conv'
-            per.setdefault(int(m.group(1)), {})[role] = hashlib.sha1(_norm(a + b).encode()).hexdigest()[:12]
+            nd = int(m.group(1)) - 2                       # '<len>$_<ordinal>': the length prefix tells how many digits belong to the ordinal
+            ordinal, rest = int(m.group(2)[:nd]), m.group(2)[nd:]
+            role = 'call' if rest.startswith('cl') else 'invoke' if '__invoke' in rest else 'conv'
+            per.setdefault(ordinal, {})[role] = hashlib.sha1(_norm(a + b).encode()).hexdigest()[:12]
         classes = {}
         for k, roles in per.items(): classes.setdefault(tuple(sorted(roles.items())), []).append(k)
         lines = open(path, encoding='latin1').read().split('\n')
-        reg = [i for i, l in enumerate(lines) if 'register_sqfop(' in l]
-        nlam = sum(l.count('[](') for l in lines)
+        reg = [i for i, l in enumerate(lines) if 'register_sqfop(' in l and not l.strip().startswith('//')]
+        nlam = sum(l.count('[](') for l in lines if not l.strip().startswith('//'))
         ok = len(reg) == nlam == len(per) and all(lines[i].count('[](') == 1 for i in reg)
         facts[kind] = dict(registrations=len(reg), lambdas_in_ir=len(per), classes=sorted(len(v) for v in classes.values()), one_lambda_per_line=ok)
         keep = sorted(min(v) for v in classes.values()) if ok else list(range(len(reg)))
@@ -98,7 +100,7 @@ POOL = {
     'TEXT': ['(text "x")', 'lineBreak', '(text "")'],
     'SCRIPT': ['scriptNull', 'c9_script', '([] spawn { uiSleep 1 })'],
     'IF': ['(if hb0__)'],
-    'FOR': ['(for "_i")', '(for "_i" from hf0__)', '(for "_i" from 0 to hf0__)', '(for "_i" from hf0__ to hf1__ step hf2__)', '(for "")'],
+    'FOR': ['(for "_i")', '(for "_i" from hf0__)', '(for "_i" from 0 to hf0__)', '(for "_i" from hf0__ to 2 step -1)', '(for "_i" from 1 to 3 step hf0__)', '(for "")'],
     'WHILE': ['(while { false })', '(while { c9_n = c9_n + 1; c9_n < 3 })', '(while { nil })', '(while { 1 })'],
     'SWITCH': ['(switch (1))', '(switch (nil))', '(switch ("a"))'],
     'WITH': ['(with missionNamespace)'],
@@ -110,7 +112,7 @@ FILE_STRINGS = ['"one.sqf"', '"two.sqf"', '"empty.sqf"', '"bom.sqf"', '"bom2.sqf
 FILE_OPS = {'loadfile', 'preprocessfile', 'preprocessfilelinenumbers', 'execvm', 'allfiles__'}
 # operators outside the claim, with the reason
 SKIP = {'exit__': 'terminates the VM by design', 'exitcode__': 'terminates the VM by design', 'callextension': 'FFI (dlopen) is not modelled', 'copytoclipboard': 'disabled in the build (DISABLE_CLIPBOARD)',
-        'vmctrl__': 'controls the VM by design', 'halt': 'halts the VM by design'}
+        'vmctrl__': 'controls the VM by design', 'halt': 'halts the VM by design', 'allfiles__': 'recursive directory iteration is not part of the file system model'}
 SF_POOL = [0.0, 1.0, -1.5, 2.0, 1e7, 16777216.0, 3e9, 1e38, math.inf, -math.inf, math.nan]
 
 def right_variant(e):
@@ -118,7 +120,9 @@ def right_variant(e):
     return e.replace('hf0__', 'hf3__').replace('hf1__', 'hf4__').replace('hf2__', 'hf5__').replace('hb0__', 'hb2__').replace('hb1__', 'hb3__')
 
 # waitUntil waits (forever, by design) for a condition that never yields true: only conditions that do are in the claim
-POOL_OVERRIDE = {('U', 'waituntil', 'CODE'): ['{ true }', '{ c9_n = c9_n + 1; c9_n > 2 }']}
+POOL_OVERRIDE = {('U', 'waituntil', 'CODE'): ['{ true }', '{ c9_n = c9_n + 1; c9_n > 2 }'],
+                 # sqrt(x^2+y^2+z^2) == 0 over three unconstrained floats is beyond z3's FP solver within the query timeout: at most two symbolic components
+                 ('U', 'vectornormalized', 'ARRAY'): ['[]', '[hf0__]', '[hf0__, hf1__]', '[hf0__, hf1__, 0]', '[hf0__, 3, 4]', '[0, 0, 0]', '[1e38, 1e38, 1e38]', '[1, 2, 3]', '["a", 1, 2]', '[1, 2, 3, 4]', 'c9_big', '[nil]']}
 def combos(sig, tier):
     kind, name, lt, rtp = sig
     if kind == 'N': return [(None, None)]
@@ -146,10 +150,19 @@ def program(sig, l, r):
     if kind == 'U': return 'private _r = [%s (%s)]; trace__ 1;' % (name, r)
     return 'private _r = [(%s) %s (%s)]; trace__ 1;' % (l, name, r)
 
-def mk_holes(h, text):
+FOR_BOUNDS = [-1.0, 0.0, 0.5, 2.0, 3.0, math.nan]; FOR_STEPS = [-1.0, 0.5, 2.0, 1e30, math.nan]     # step 0 and an infinite end loop forever by design
+def mk_holes(h, text, pooled=None):
     hf = {}; hb = {}
     for i in range(6):
-        if 'hf%d__' % i in text: hf[i] = rt.fresh_f32('hf%d' % i)
+        if 'hf%d__' % i not in text: continue
+        x = rt.fresh_f32('hf%d' % i)
+        if pooled and i in pooled:
+            # loop bounds / steps: the counter arithmetic on a free float stalls z3's FP solver (chained fp.add), so these holes range over a boundary pool
+            for c in pooled[i]:
+                cond = z3.fpIsNaN(x.e) if c != c else z3.And(z3.fpEQ(x.e, z3.FPVal(c, rt.F32)), z3.Not(z3.fpIsNaN(x.e)), z3.Not(z3.And(z3.fpIsZero(x.e), z3.fpIsNegative(x.e))))
+                if rt.branch(cond): x = c; break
+            else: rt.end_path('pruned', 'outside the loop bound pool')
+        hf[i] = x
     for i in range(4):
         if 'hb%d__' % i in text: hb[i] = rt.fresh_bool('hb%d' % i)
     h.holes_f = hf; h.holes_b = hb
@@ -159,7 +172,8 @@ def sig_case(h, vm, sig, cs):
         i = C01.choose('combo', len(cs)) if len(cs) > 1 else 0
         l, r = cs[i]
         text = program(sig, l, r)
-        mk_holes(h, text); rt.PS.cut_base = rt.PS.nbranch
+        pooled = {i: (FOR_STEPS if 'step hf%d__' % i in l else FOR_BOUNDS) for i in range(3)} if sig[2] == 'FOR' and sig[1] == 'do' else None
+        mk_holes(h, text, pooled); rt.PS.cut_base = rt.PS.nbranch
         h.reset_obs(); rt.STEP[0] = 0
         res = h.run(vm, text)
         # the VM must stay usable afterwards
@@ -262,7 +276,7 @@ def run(ctx):
             inner = sig_case(h, vmd, sig, cs)
             def case():
                 ret = inner()
-                if not any('NOT IMPLEMENTED' in l[2] for l in h.logs) and not h.errors():
+                if not h.logs:   # '[NOT IMPLEMENTED] <name>', or the nil-operand rejection that precedes dispatch
                     rt.record_violation('assert', 'table operator %s neither reports NOT IMPLEMENTED nor another diagnostic' % name)
                 return ret
             return case
